@@ -942,6 +942,8 @@ def tsan_part(run, r, tcases, rcases, d):
         if c["smp"] == "perm":
             c2 = dict(c); c2["steps"] = [dict(st, nt=max(2, st["nt"])) for st in c["steps"]]
             jobs.append((c2, rcase_scenario(c2, "perm", "T%d" % c["id"]), "rcase"))
+    # two components that create rotation objects while they are evaluated (debugGradients) on two threads
+    jobs.append(({"debug-gradients-two-threads": True}, [l for l in depth_scenario("perm", "x") if not l.startswith("log ")], "scenario"))
     jobs.append(({"errbits": True}, ["natoms 1", "smp perm 2", "new"] + errbits_lines(r, 6) + ["endcase 0"], "errbits"))
     for c, scen, kind in jobs:
         rc, out, err = run_batch(sim, scen, d, env, timeout=600)
@@ -959,7 +961,7 @@ def tsan_part(run, r, tcases, rcases, d):
             run.violation("tsan:%s" % re.sub(r"[^A-Za-z0-9_:]", "_", fn)[:60],
                           "ThreadSanitizer (std::thread executor) reports a data race in %s (%s:%s) [exploration: a failing schedule, not a proof obligation]; report:\n%s" % (
                               fn, os.path.basename(lib[0][1]), lib[0][2], rep[:1500]),
-                          {"kind": kind, "case": c, "tsan": True, "scenario": scen if kind == "errbits" else None})
+                          {"kind": kind, "case": c, "tsan": True, "scenario": scen if kind in ("errbits", "scenario") else None})
             break
     run.cov["correspondence"]["tsan_scenarios"] = len(jobs)
     run.cov["correspondence"]["tsan_reports_in_library"] = nrep
@@ -1390,6 +1392,8 @@ def replay(path):
         print("---- scenario:\n" + "\n".join(rp["scenario"]))
     elif rp.get("kind") == "opes":
         print("build the library with -DOPES_THREADING, run with OMP_NUM_THREADS=%s:\n" % rp["threads"] + "\n".join(rp["scenario"][:40]) + "\n...")
+    elif rp.get("kind") == "scenario":
+        print("\n".join(rp.get("scenario") or []))
     elif rp.get("kind") == "errbits":
         print(rp.get("line") or "\n".join(rp.get("scenario") or []))
     elif rp.get("kind") == "depth":
